@@ -6,12 +6,18 @@ mod ops_c17;
 mod ops_c14;
 mod ops_c01;
 mod ops_c03;
+mod ops_c09;
+mod ops_c18;
 fn dispatch_more(op: &str, args: &[String]) -> Option<String> {
+    if let Some(r) = ops_c09::run(op, args) {
+        return Some(r);
+    }
     if let Some(r) = ops_c20::run(op, args) { return Some(r); }
     if let Some(r) = ops_c13::run(op, args) { return Some(r); }
     if let Some(r) = ops_c17::run(op, args) { return Some(r); }
     if let Some(r) = ops_c14::run(op, args) { return Some(r); }
     if let Some(r) = ops_c01::run(op, args) { return Some(r); }
     if let Some(r) = ops_c03::run(op, args) { return Some(r); }
+    if let Some(r) = ops_c18::run(op, args) { return Some(r); }
     None
 }
